@@ -134,8 +134,38 @@ class Ctx:
             return None
         return res
 
+    def sig_resolver(self, rel):
+        """name of a repo function / class  ->  its positional parameter names (constructor parameters without self)"""
+        repo = self.repo
+        cache = {}
+
+        def sig(name):
+            if name in cache:
+                return cache[name]
+            out = None
+            r = repo.resolve_name(rel, name)
+            if r is not None and r[1] is not None and r[0] in repo.modules:
+                m = repo.modules[r[0]]
+                f = None
+                if r[1] in m.functions and '.' not in r[1]:
+                    f = m.functions[r[1]]
+                    drop = 0
+                elif r[1] in m.classes:
+                    fm = repo.find_method(r[0], r[1], '__init__')
+                    if fm is not None:
+                        f = repo.modules[fm[0]].functions[fm[1]]
+                        drop = 1
+                if f is not None and not f.args.vararg and not f.args.posonlyargs:
+                    out = [a.arg for a in f.args.args][drop:]
+            cache[name] = out
+            return out
+        return sig
+
     def pe(self, rel, **kw):
-        return T.PE(resolve_global=self.resolver(rel), **kw)
+        self._last_rel = rel
+        pe = T.PE(resolve_global=self.resolver(rel), **kw)
+        pe.sig_of = self.sig_resolver(rel)
+        return pe
 
     def summ(self, rel, qual, args=None, kwargs=None, self_term=None, **kw):
         f = self.func(rel, qual)
@@ -152,6 +182,8 @@ class Ctx:
         fdefs = [n for n in tree.body if isinstance(n, ast.FunctionDef)]
         f = fdefs[0] if name is None else [x for x in fdefs if x.name == name][0]
         pe = T.PE(resolve_global=lambda n: None if n in T.BUILTINS else ('g', n), **kw)
+        if getattr(self, '_last_rel', None):
+            pe.sig_of = self.sig_resolver(self._last_rel)      # restatements are read in the context of the function just summarised
         return pe.run_function(f, args=args, kwargs=kwargs, self_term=self_term)
 
     def spec_term(self, src, **kw):
@@ -247,7 +279,7 @@ def bits_const(t):
     if t[0] == 'call' and t[1] in (('g', 'Bits'),) and len(t[2]) >= 1:
         try:
             v = T.to_py(t[2][0])
-            n = T.to_py(t[2][1]) if len(t[2]) > 1 else T.kwargs_of(t).get('size')
+            n = T.call_arg(t, 'size', 1)
             if n is not None and not isinstance(n, int):
                 n = T.to_py(n)
             return (v, n)
